@@ -519,8 +519,9 @@ fn use_model(model: Model, rng: &mut Rng, alpha_texts: &[Vec<char>]) -> Result<(
     for tags in [false, true] {
         let m = Model::read(std::io::Cursor::new(&w)).map_err(|e| ("C11:written_model_cannot_be_read".to_string(), format!("{e}")))?;
         let mut p = Predictor::new(m, tags).map_err(|e| ("C11:trained_model_rejected_by_predictor".to_string(), format!("predict_tags={tags}: {e}")))?;
+        let stored = rng.chance(1, 2);
         if tags {
-            p.store_tag_scores(rng.chance(1, 2) && mir.n_tags() > 0);
+            p.store_tag_scores(stored);
         }
         for t in alpha_texts {
             let mut s = Sentence::from_raw(to_string(t)).unwrap();
@@ -528,7 +529,7 @@ fn use_model(model: Model, rng: &mut Rng, alpha_texts: &[Vec<char>]) -> Result<(
             if tags {
                 s.fill_tags();
             }
-            let _ = observe(&s, false);
+            let _ = observe(&s, tags && stored);
         }
     }
     Ok(())
@@ -708,7 +709,7 @@ pub fn run_c12(ctx: &mut Ctx, from: u64, to: u64) {
         let logs = tr.tlogs;
         let r = guard(|| -> Result<(u64, u64), (String, String)> {
             let mut p = Predictor::new(tr.model, true).map_err(|e| ("C12:trained_model_rejected_by_predictor".to_string(), format!("{e}")))?;
-            let stored = n_tags_model > 0;
+            let stored = true;
             p.store_tag_scores(stored);
             let mut checked = 0u64;
             let mut scored = 0u64;
